@@ -1,3 +1,125 @@
-(* C12 — statements are added when the corresponding facts file lands *)
-From SV Require Import Bytes Ops.
-Theorem C12_placeholder : True. Proof. exact I. Qed.
+(* C12 — filter-set editing operations behave like an ordered, uniquely named list.
+
+   Model: factory/Ops.v — addfilter, updatefilter, replacefilter, removefilter, enablefilter,
+   disablefilter, movefilter, getfilter, is_filter_disabled of sievelib.factory.FiltersSet, with
+   filter contents abstracted to "a plain command (identified by a number)" or "the if-false wrapper
+   around contents", which is all these operations inspect.  Reference: [spec_step] over a list of
+   entries (name, content id, enabled, description).  Proofs: factory/OpsFacts.v.
+   The model is tied to factory.py by the correspondence check (every operation's return value /
+   exception and the whole observable state after every step, on exhaustive and random operation
+   sequences); the reference list is compared with the implementation directly as well. *)
+From Coq Require Import List NArith Bool Arith.
+From SV Require Import Bytes Ops OpsFacts.
+Import ListNotations.
+Local Open Scope nat_scope.
+
+(* a concrete set represents the reference list sp exactly when it is the image of sp: enabled filters hold their plain content, disabled ones hold it wrapped once in if-false, flags agree *)
+Theorem C12_representation :
+  forall (s : fset) (sp : spec), abs s = Some sp <-> s = map conc sp.
+Proof. exact OpsFacts.abs_iff. Qed.
+Print Assumptions C12_representation.
+
+(* every operation on a representable set returns what the reference returns and yields the representation of the reference result *)
+Theorem C12_step_refines :
+  forall (sp : list entry) (o : fop),
+  step (map conc sp) o = (fst (spec_step sp o), map conc (snd (spec_step sp o))).
+Proof. exact OpsFacts.step_refines. Qed.
+Print Assumptions C12_step_refines.
+
+(* all histories from the empty set (no length bound): every return value agrees and the final set represents the reference list *)
+Theorem C12_history_refines :
+  forall ops : list fop,
+  fst (run_trace [] ops) = fst (spec_trace [] ops) /\
+  abs (snd (run_trace [] ops)) = Some (snd (spec_trace [] ops)).
+Proof. exact OpsFacts.history_refines. Qed.
+Print Assumptions C12_history_refines.
+
+(* in every representable state: is_filter_disabled = not enabled (True for unknown names), getfilter returns the filter's own plain content whether or not it is disabled, and enabled = not wrapped for every filter *)
+Theorem C12_observers :
+  forall (sp : list entry) (n : bytes),
+  op_is_disabled n (map conc sp) =
+  RBool match s_find n sp with
+        | Some e => negb (e_enabled e)
+        | None => true
+        end /\
+  op_get n (map conc sp) =
+  match s_find n sp with
+  | Some e => RContent (Plain (e_id e))
+  | None => RNone
+  end /\
+  Forall (fun f : filter => f_enabled f = negb (isdisabled (f_content f))) (map conc sp).
+Proof. exact OpsFacts.observers_agree. Qed.
+Print Assumptions C12_observers.
+
+(* names stay unique under every operation *)
+Theorem C12_names_unique :
+  forall (sp : spec) (o : fop), NoDup (names sp) -> NoDup (names (snd (spec_step sp o))).
+Proof. exact OpsFacts.spec_step_nodup. Qed.
+Print Assumptions C12_names_unique.
+
+(* ... hence in every reachable state *)
+Theorem C12_history_names_unique :
+  forall ops : list fop, NoDup (names (snd (spec_trace [] ops))).
+Proof. exact OpsFacts.history_nodup. Qed.
+Print Assumptions C12_history_names_unique.
+
+(* update / replace / enable / disable rewrite exactly the first entry of that name, at its position; everything else is untouched *)
+Theorem C12_update_in_place :
+  forall (n : bytes) (g : entry -> entry) (sp : spec) (k : nat) (e : entry),
+  s_index n sp = Some k ->
+  s_find n sp = Some e ->
+  s_update n g sp = firstn k sp ++ g e :: skipn (S k) sp /\ nth_error sp k = Some e.
+Proof. exact OpsFacts.s_update_in_place. Qed.
+Print Assumptions C12_update_in_place.
+
+(* moving up swaps the filter with its predecessor, nothing else moves *)
+Theorem C12_move_up :
+  forall (n : bytes) (sp : spec) (k : nat),
+  s_index n sp = Some (S k) ->
+  exists (l1 : list entry) (x y : entry) (l2 : list entry),
+    sp = l1 ++ x :: y :: l2 /\
+    length l1 = k /\ e_name y = n /\ s_move_up n sp = l1 ++ y :: x :: l2.
+Proof. exact OpsFacts.s_move_up_swap. Qed.
+Print Assumptions C12_move_up.
+
+(* moving down swaps the filter with its successor, nothing else moves *)
+Theorem C12_move_down :
+  forall (n : bytes) (sp : spec) (k : nat),
+  s_index n sp = Some k ->
+  S k <> length sp ->
+  exists (l1 : list entry) (x y : entry) (l2 : list entry),
+    sp = l1 ++ x :: y :: l2 /\
+    length l1 = k /\ e_name x = n /\ s_move_down n sp = l1 ++ y :: x :: l2.
+Proof. exact OpsFacts.s_move_down_swap. Qed.
+Print Assumptions C12_move_down.
+
+(* operations on unknown names return False and change nothing *)
+Theorem C12_unknown_names :
+  forall (sp : spec) (o : fop) (n : bytes),
+  s_exists n sp = false ->
+  match o with
+  | FAdd _ _ => False
+  | FUpdate a _ _ | FReplace a _ _ _ => a = n
+  | FRemove m | FEnable m | FDisable m | FMove m _ => m = n
+  end -> spec_step sp o = (RBool false, sp).
+Proof. exact OpsFacts.unknown_name_noop. Qed.
+Print Assumptions C12_unknown_names.
+
+(* the repaired defect stays repaired in the model: disabling twice then enabling once gives an enabled,
+   unwrapped filter (F4 of DESIGN.md 1.1) *)
+Example C12_disable_twice_enable :
+  let a := [97%N] in
+  let s := snd (run_trace [] [FAdd a 1; FDisable a; FDisable a; FEnable a]) in
+  s = [mkF a (Plain 1) true None] /\ op_is_disabled a s = RBool false /\ op_get a s = RContent (Plain 1).
+Proof. vm_compute. repeat split. Qed.
+
+(* non-vacuity: collisions, repeats and boundary moves in one history *)
+Example C12_history_example :
+  let a := [97%N] in let b := [98%N] in
+  let ops := [FAdd a 1; FAdd b 2; FAdd a 3; FDisable a; FDisable a; FUpdate a a 4; FMove a true; FMove b true;
+              FEnable a; FEnable a; FReplace b 5 (Some a) None; FRemove b; FRemove b] in
+  fst (run_trace [] ops) =
+    [RNone; RNone; RAlreadyExists; RBool true; RBool true; RBool true; RBool false; RBool true;
+     RBool true; RBool false; RAlreadyExists; RBool true; RBool false]
+  /\ abs (snd (run_trace [] ops)) = Some [mkE a 4 true None].
+Proof. vm_compute. split; reflexivity. Qed.
